@@ -370,10 +370,406 @@ def site_sample_aabb():
     return {"sha": sha, "uniform": exprs["uniform"], "grid": exprs["grid"], "span": span}
 
 
+
+# ------------------------------------------------------------------------------------------------
+# round 2: more of sampling.py and bezier.py
+# ------------------------------------------------------------------------------------------------
+_CMP = {ast.Lt: "<", ast.LtE: "≤", ast.Gt: ">", ast.GtE: "≥", ast.Eq: "=", ast.NotEq: "≠"}
+
+
+def bool_expr(node, term):
+    """Python boolean expression over comparisons -> Lean `Bool` term; `term` translates the compared terms"""
+    if isinstance(node, ast.UnaryOp) and isinstance(node.op, ast.Not):
+        return f"(!{bool_expr(node.operand, term)})"
+    if isinstance(node, ast.BoolOp):
+        op = " && " if isinstance(node.op, ast.And) else " || "
+        return "(" + op.join(bool_expr(v, term) for v in node.values) + ")"
+    if isinstance(node, ast.Compare):
+        terms = [node.left] + list(node.comparators)
+        parts = []
+        for a, o, b in zip(terms, node.ops, terms[1:]):
+            if type(o) not in _CMP: raise TranslateError(f"unsupported comparison {type(o).__name__}")
+            parts.append(f"decide ({term(a)} {_CMP[type(o)]} {term(b)})")
+        return "(" + " && ".join(parts) + ")"
+    raise TranslateError(f"unsupported boolean expression: {ast.dump(node)[:100]}")
+
+
+def _atom_sqrt(sym, node):
+    if isinstance(node, ast.Call) and _is_attr_chain(node.func, ["np", "sqrt"]) and len(node.args) == 1:
+        return f"(sqrt {sym.ev(node.args[0])})"
+    return None
+
+
+def _atom_npsum(sym, node):
+    """np.sum(<the raw weight vector>) / <vector>.sum()  ->  total"""
+    arg = None
+    if isinstance(node, ast.Call) and _is_attr_chain(node.func, ["np", "sum"]) and len(node.args) == 1 and not node.keywords:
+        arg = node.args[0]
+    elif isinstance(node, ast.Call) and isinstance(node.func, ast.Attribute) and node.func.attr == "sum" and not node.args and not node.keywords:
+        arg = node.func.value
+    if arg is not None:
+        if sym.ev(arg) == "w": return "total"
+        raise TranslateError("sum is not taken over the raw weight vector")
+    return None
+
+
+def _corner_gen(node, container, nvars):
+    """`(mesh.vertices[_v] for _v in mesh.<container>[<idx>])` -> idx node"""
+    if isinstance(node, ast.GeneratorExp) and len(node.generators) == 1:
+        g = node.generators[0]
+        if isinstance(g.target, ast.Name) and ast.unparse(node.elt) == f"mesh.vertices[{g.target.id}]" and isinstance(g.iter, ast.Subscript) \
+                and ast.unparse(g.iter.value) == f"mesh.{container}" and not g.ifs:
+            return g.iter.slice
+    raise TranslateError(f"corner positions are not (mesh.vertices[_v] for _v in mesh.{container}[..])")
+
+
+def _enumerate_loop(fn, pts_name):
+    loops = [s for s in fn.body if isinstance(s, ast.For)]
+    if len(loops) != 1: raise TranslateError("expected exactly one sampling loop")
+    lp = loops[0]
+    if not (isinstance(lp.target, ast.Tuple) and len(lp.target.elts) == 2 and all(isinstance(e, ast.Name) for e in lp.target.elts)
+            and isinstance(lp.iter, ast.Call) and isinstance(lp.iter.func, ast.Name) and lp.iter.func.id == "enumerate"
+            and len(lp.iter.args) == 1 and isinstance(lp.iter.args[0], ast.Name)):
+        raise TranslateError("sampling loop is not `for i,x in enumerate(<name>)`")
+    return lp, lp.target.elts[0].id, lp.target.elts[1].id, lp.iter.args[0].id
+
+
+def _store_row(stmt, arr, counter):
+    """`arr[counter,:] = value` -> value"""
+    if isinstance(stmt, ast.Assign) and len(stmt.targets) == 1 and isinstance(stmt.targets[0], ast.Subscript) \
+            and ast.unparse(stmt.targets[0]) == f"{arr}[{counter}, :]":
+        return stmt.value
+    return None
+
+
+def _choice_call(node, n_name, p_name):
+    """choice(<n_name>, size=n_pts, p=<p_name>)"""
+    if isinstance(node, ast.Call) and isinstance(node.func, ast.Name) and node.func.id == "choice" and len(node.args) == 1 \
+            and isinstance(node.args[0], ast.Name) and node.args[0].id == n_name:
+        kws = {k.arg: ast.unparse(k.value) for k in node.keywords}
+        if kws == {"size": "n_pts", "p": p_name}: return True
+    return False
+
+
+def _prob_block(stmts, raw_call, count_name, container):
+    """recognises
+         <w> = <raw_call>(mesh, persistent=False).as_array()      (possibly wrapped in np.atleast_1d)
+         <w> /= np.sum(<w>)
+         <sel> = choice(<count_name>, size=n_pts, p=<w>)
+       returns (prob expression in `w`,`total`; name of <sel>)"""
+    sym = Sym({}, [_atom_npsum])
+    wname = sel = None
+    for s in stmts:
+        if isinstance(s, ast.Assign) and len(s.targets) == 1 and isinstance(s.targets[0], ast.Name):
+            src = ast.unparse(s.value)
+            if raw_call + "(mesh" in src and src.endswith(".as_array()") or (raw_call + "(mesh" in src and src.startswith("np.atleast_1d(")):
+                wname = s.targets[0].id; sym.env[wname] = "w"; continue
+            if wname and isinstance(s.value, ast.Call) and isinstance(s.value.func, ast.Name) and s.value.func.id == "choice":
+                if not _choice_call(s.value, count_name, wname):
+                    raise TranslateError(f"selection is not choice({count_name}, size=n_pts, p={wname}): {src}")
+                sel = s.targets[0].id; continue
+            if wname and s.targets[0].id == wname:
+                sym.env[wname] = sym.ev(s.value); continue
+        if wname and isinstance(s, ast.AugAssign) and isinstance(s.target, ast.Name) and s.target.id == wname:
+            sym.run([s], {wname}); continue
+    if wname is None or sel is None: raise TranslateError(f"weight vector / choice call of {container} not found")
+    return sym.env[wname], sel
+
+
+def _len_of(fn, name, container):
+    for s in fn.body:
+        if isinstance(s, ast.Assign) and isinstance(s.targets[0], ast.Name) and s.targets[0].id == name:
+            if ast.unparse(s.value) == f"len(mesh.{container})": return True
+    raise TranslateError(f"{name} is not len(mesh.{container})")
+
+
+def _wrap_check(fn, arr):
+    """the trailing return_point_cloud structure wraps / returns the array `arr`"""
+    last = fn.body[-1]
+    if not (isinstance(last, ast.If) and isinstance(last.test, ast.Name) and last.test.id == "return_point_cloud"):
+        raise TranslateError("function does not end with `if return_point_cloud:`")
+    body_src = "\n".join(ast.unparse(x) for x in last.body)
+    if f"pointcloud.vertices += list({arr})" not in body_src or "return pointcloud" not in body_src:
+        raise TranslateError(f"point cloud branch does not wrap `{arr}`")
+    return last
+
+
+def site_sample_surface():
+    tree, _ = T.load("mouette/sampling.py")
+    fn = T.find_def(tree, "sample_surface")
+    _len_of(fn, "NF", "faces")
+    prob, sel = _prob_block(fn.body, "face_area", "NF", "faces")
+    lp, counter, fvar, it = _enumerate_loop(fn, "sampled_pts")
+    if it != sel: raise TranslateError(f"sampling loop iterates `{it}`, not the faces drawn by choice (`{sel}`)")
+    # normals: sampled_normals = np.array([normals[<idx(f)>] for f in <sel>])
+    nidx = None
+    for n in ast.walk(fn):
+        if isinstance(n, ast.Assign) and isinstance(n.targets[0], ast.Name) and n.targets[0].id == "sampled_normals":
+            v = n.value
+            if not (isinstance(v, ast.Call) and _is_attr_chain(v.func, ["np", "array"]) and isinstance(v.args[0], ast.ListComp)):
+                raise TranslateError("sampled_normals is not np.array([... for f in ...])")
+            lc = v.args[0]; g = lc.generators[0]
+            if not (len(lc.generators) == 1 and isinstance(g.target, ast.Name) and isinstance(g.iter, ast.Name) and g.iter.id == sel and not g.ifs):
+                raise TranslateError("normals are not gathered over the faces drawn by choice")
+            if not (isinstance(lc.elt, ast.Subscript) and isinstance(lc.elt.value, ast.Name) and lc.elt.value.id == "normals"):
+                raise TranslateError("normals comprehension element is not normals[..]")
+            nidx = int_expr(lc.elt.slice, {g.target.id: "f"})
+    if nidx is None: raise TranslateError("sampled_normals assignment not found")
+    # loop body
+    sym = Sym({}, [_atom_sqrt])
+    fidx = None; result = None
+    for s in lp.body:
+        if isinstance(s, ast.Assign) and isinstance(s.targets[0], ast.Tuple):
+            names = [e.id for e in s.targets[0].elts]
+            if isinstance(s.value, ast.GeneratorExp):
+                if len(names) != 3: raise TranslateError("expected three corners")
+                fidx = int_expr(_corner_gen(s.value, "faces", 3), {fvar: "f"})
+                for nm, a in zip(names, "abc"): sym.env[nm] = a
+                continue
+            if ast.unparse(s.value) == "random(2)" and len(names) == 2:
+                sym.env[names[0]] = "u1"; sym.env[names[1]] = "u2"; continue
+            raise TranslateError(f"unrecognised tuple assignment {ast.unparse(s)}")
+        v = _store_row(s, "sampled_pts", counter)
+        if v is not None:
+            result = sym.ev(v); continue
+        sym.run([s], {"sampled_pts"})
+    if fidx is None or result is None: raise TranslateError("corner lookup / point assignment not found")
+    # wrapping options
+    last = _wrap_check(fn, "sampled_pts")
+    wrap_src = "\n".join(ast.unparse(x) for x in last.body)
+    if "pc_normals._data = sampled_normals" not in wrap_src or "create_attribute('normals', float, 3, dense=True)" not in wrap_src:
+        raise TranslateError("point cloud branch does not store sampled_normals in the `normals` attribute")
+    else_src = "\n".join(ast.unparse(x) for x in last.orelse)
+    if else_src != "if return_normals:\n    return (sampled_pts, sampled_normals)\nreturn sampled_pts":
+        raise TranslateError(f"array branch is not `if return_normals: return sampled_pts,sampled_normals; return sampled_pts`")
+    out = NS
+    out += "/-- `areas /= np.sum(areas)`: one entry of the vector handed to `choice(NF, size=n_pts, p=areas)` -/\n"
+    out += f"def surfProb (w total : Rat) : Rat := {prob}\n"
+    out += "/-- face whose corners are read for a sample drawn on face `f` (`mesh.faces[·]`), and face whose normal is attached -/\n"
+    out += f"def surfFaceIndex (f : Nat) : Nat := {fidx}\n"
+    out += f"def surfNormalIndex (f : Nat) : Nat := {nidx}\n"
+    out += "/-- one coordinate of a sampled point: `u1,u2` the two uniform draws, `sqrt` numpy's square root, `a b c` the corners -/\n"
+    out += f"def triCoord (sqrt : Rat → Rat) (u1 u2 a b c : Rat) : Rat :=\n  {result}\n" + END
+    _, sha = T.write_generated("C19Tri", out)
+    return {"sha": sha, "point": result, "prob": prob, "face": fidx, "normal": nidx}
+
+
+def site_sample_polyline():
+    tree, _ = T.load("mouette/sampling.py")
+    fn = T.find_def(tree, "sample_polyline")
+    _len_of(fn, "NE", "edges")
+    ifs = [s for s in fn.body if isinstance(s, ast.If) and isinstance(s.test, ast.Compare) and "NE" in ast.unparse(s.test)]
+    if len(ifs) != 1: raise TranslateError("guard on NE not found")
+    gd = ifs[0]
+    guard = bool_expr(gd.test, lambda n: int_expr(n, {"NE": "NE"}))
+    prob, sel = _prob_block(gd.body, "edge_length", "NE", "edges")
+    if len(gd.orelse) != 1 or ast.unparse(gd.orelse[0]) != f"{sel} = [0] * n_pts":
+        raise TranslateError(f"else branch is not `{sel} = [0]*n_pts`")
+    lp, counter, evar, it = _enumerate_loop(fn, "sampled_pts")
+    if it != sel: raise TranslateError(f"sampling loop iterates `{it}`, not the edges drawn by choice (`{sel}`)")
+    sym = Sym({}, [])
+    eidx = result = None
+    for s in lp.body:
+        if isinstance(s, ast.Assign) and isinstance(s.targets[0], ast.Tuple) and isinstance(s.value, ast.GeneratorExp):
+            names = [e.id for e in s.targets[0].elts]
+            if len(names) != 2: raise TranslateError("expected two end points")
+            eidx = int_expr(_corner_gen(s.value, "edges", 2), {evar: "e"})
+            sym.env[names[0]] = "a"; sym.env[names[1]] = "b"; continue
+        if isinstance(s, ast.Assign) and isinstance(s.targets[0], ast.Name) and ast.unparse(s.value) in ("np.random.random()", "random()"):
+            sym.env[s.targets[0].id] = "t"; continue
+        v = _store_row(s, "sampled_pts", counter)
+        if v is not None:
+            result = sym.ev(v); continue
+        sym.run([s], {"sampled_pts"})
+    if eidx is None or result is None: raise TranslateError("end point lookup / point assignment not found")
+    _wrap_check(fn, "sampled_pts")
+    out = NS
+    out += "/-- `if NE>1:` guard around the weighted choice (else: edge 0 for every sample) -/\n"
+    out += f"def polyGuard (NE : Nat) : Bool := {guard}\n"
+    out += "/-- `lengths /= np.sum(lengths)`: one entry of the vector handed to `choice(NE, size=n_pts, p=lengths)` -/\n"
+    out += f"def polyProb (w total : Rat) : Rat := {prob}\n"
+    out += f"def polyEdgeIndex (e : Nat) : Nat := {eidx}\n"
+    out += "/-- one coordinate of a sampled point: `t` the uniform draw, `a b` the end points of the edge (in edge order) -/\n"
+    out += f"def segCoord (t a b : Rat) : Rat := {result}\n" + END
+    _, sha = T.write_generated("C19Seg", out)
+    return {"sha": sha, "point": result, "prob": prob, "guard": guard, "edge": eidx}
+
+
+def site_sample_sphere():
+    tree, _ = T.load("mouette/sampling.py")
+    fn = T.find_def(tree, "sample_sphere")
+    sym = Sym({"center": "center", "radius": "radius"}, [_atom_normal_dir, _atom_norm, _atom_reshape])
+    body, ret = _final_value(fn, sym, "pts")
+    sym.run(body, {"pts"})
+    if ret not in sym.env: raise TranslateError(f"returned name {ret} never assigned")
+    _wrap_check(fn, ret)
+    expr = sym.env[ret]
+    for need in ("g", "nrm", "radius", "center"):
+        if need not in expr: raise TranslateError(f"returned expression does not use `{need}`: {expr}")
+    out = NS + "/-- one coordinate of the array returned by `sample_sphere` (`g` normal draw, `nrm` its norm) -/\n"
+    out += f"def sphereCoord (center radius g nrm : Rat) : Rat :=\n  {expr}\n" + END
+    _, sha = T.write_generated("C19Sphere", out)
+    return {"sha": sha, "expr": expr}
+
+
+def site_de_casteljau():
+    tree, _ = T.load("mouette/splines/bezier.py")
+    fn = T.find_def(tree, "de_casteljau")
+    args = [a.arg for a in fn.args.args]
+    if args != ["P", "t"]: raise TranslateError(f"signature changed: {args}")
+    body = [s for s in fn.body if not (isinstance(s, ast.Expr) and isinstance(s.value, ast.Constant))]
+    if len(body) != 5: raise TranslateError(f"expected guard, copy, order, loop nest, return; got {len(body)} statements")
+    g, cp, od, lp, rt = body
+    # guard
+    if not (isinstance(g, ast.If) and len(g.body) == 1 and isinstance(g.body[0], ast.Raise) and not g.orelse):
+        raise TranslateError("first statement is not `if <cond>: raise`")
+
+    def tterm(n):
+        v = _num(n)
+        if v is not None: return v
+        if isinstance(n, ast.Name) and n.id == "t": return "t"
+        raise TranslateError(f"guard compares something else than t and constants: {ast.dump(n)[:80]}")
+    raise_cond = bool_expr(g.test, tterm)
+    # copy + order
+    if ast.unparse(cp) != "coeffs = [x for x in P]": raise TranslateError(f"coefficient copy changed: {ast.unparse(cp)}")
+    if not (isinstance(od, ast.Assign) and isinstance(od.targets[0], ast.Name)): raise TranslateError("order assignment")
+    oname = od.targets[0].id
+    order = int_expr(od.value, {"len_P": "lenP"})
+    # loops
+    if not (isinstance(lp, ast.For) and isinstance(lp.target, ast.Name) and len(lp.body) == 1 and isinstance(lp.body[0], ast.For)
+            and isinstance(lp.body[0].target, ast.Name) and len(lp.body[0].body) == 1):
+        raise TranslateError("loop nest is not `for j in range(..): for i in range(..): <one statement>`")
+    jv, inner = lp.target.id, lp.body[0]
+    iv = inner.target.id
+    outer_b = int_expr(_range_arg(lp.iter), {oname: "order"})
+    inner_b = int_expr(_range_arg(inner.iter), {oname: "order", jv: "j"})
+    up = inner.body[0]
+    if not (isinstance(up, ast.Assign) and isinstance(up.targets[0], ast.Subscript) and isinstance(up.targets[0].value, ast.Name)
+            and up.targets[0].value.id == "coeffs"):
+        raise TranslateError("update is not `coeffs[..] = ..`")
+    target = int_expr(up.targets[0].slice, {iv: "i"})
+
+    def _atom_coeff(sym, node):
+        if isinstance(node, ast.Subscript) and isinstance(node.value, ast.Name) and node.value.id == "coeffs":
+            return f"(coeffs {int_expr(node.slice, {iv: 'i'})})"
+        return None
+    sym = Sym({"t": "t"}, [_atom_coeff])
+    update = sym.ev(up.value)
+    if not (isinstance(rt, ast.Return) and isinstance(rt.value, ast.Subscript) and isinstance(rt.value.value, ast.Name) and rt.value.value.id == "coeffs"):
+        raise TranslateError("return is not coeffs[..]")
+    res = int_expr(rt.value.slice, {})
+    out = NS
+    out += "/-- condition under which `de_casteljau` raises InvalidRangeArgumentError -/\n"
+    out += f"def dcRaises (t : Rat) : Bool := {raise_cond}\n"
+    out += "/-- `order = len(P)-1`; `for j in range(dcOuter): for i in range(dcInner): coeffs[dcTarget] = dcUpdate`; `return coeffs[dcResult]` -/\n"
+    out += f"def dcOrder (lenP : Nat) : Nat := {order}\n"
+    out += f"def dcOuter (order : Nat) : Nat := {outer_b}\n"
+    out += f"def dcInner (order j : Nat) : Nat := {inner_b}\n"
+    out += f"def dcTarget (i : Nat) : Nat := {target}\n"
+    out += f"def dcUpdate (t : Rat) (coeffs : Nat → Rat) (i : Nat) : Rat := {update}\n"
+    out += f"def dcResult : Nat := {res}\n" + END
+    _, sha = T.write_generated("C19DC", out)
+    return {"sha": sha, "raises": raise_cond, "order": order, "outer": outer_b, "inner": inner_b, "target": target, "update": update, "result": res}
+
+
+def site_patch_evaluate():
+    tree, _ = T.load("mouette/splines/bezier.py")
+    row = T.find_def(tree, "BezierPatch._evaluate_row")
+    ev = T.find_def(tree, "BezierPatch.evaluate")
+    surf = T.find_def(tree, "BezierPatch.as_surface")
+    rargs = [a.arg for a in row.args.args]
+    if len(rargs) != 2: raise TranslateError("_evaluate_row signature")
+    upar = rargs[1]
+    rets = [s for s in row.body if isinstance(s, ast.Return)]
+    if len(rets) != 1 or not isinstance(rets[0].value, ast.ListComp): raise TranslateError("_evaluate_row does not return a list comprehension")
+    lc = rets[0].value; g = lc.generators[0]
+    if len(lc.generators) != 1 or g.ifs or not isinstance(g.target, ast.Name): raise TranslateError("_evaluate_row comprehension shape")
+    iv = g.target.id
+
+    def cnt(n):
+        """len(self.pts) -> nrows ; len(self.pts[0]) -> ncols ; arithmetic on them"""
+        if isinstance(n, ast.Call) and isinstance(n.func, ast.Name) and n.func.id == "len" and len(n.args) == 1:
+            src = ast.unparse(n.args[0])
+            if src == "self.pts": return "nrows"
+            if src == "self.pts[0]": return "ncols"
+            raise TranslateError(f"len of {src}")
+        if isinstance(n, ast.Constant) and isinstance(n.value, int): return str(n.value)
+        if isinstance(n, ast.BinOp) and type(n.op) in (ast.Add, ast.Sub, ast.Mult):
+            op = {ast.Add: "+", ast.Sub: "-", ast.Mult: "*"}[type(n.op)]
+            return f"({cnt(n.left)} {op} {cnt(n.right)})"
+        raise TranslateError(f"unsupported row range {ast.unparse(n)}")
+    rng_ = cnt(_range_arg(g.iter))
+    e = lc.elt
+    if not (isinstance(e, ast.Call) and isinstance(e.func, ast.Name) and e.func.id == "de_casteljau" and len(e.args) == 2 and not e.keywords):
+        raise TranslateError("_evaluate_row element is not de_casteljau(.., ..)")
+    a0, a1 = e.args
+    if not (isinstance(a0, ast.Subscript) and ast.unparse(a0.value) == "self.pts"): raise TranslateError("row control points are not self.pts[..]")
+    ridx = int_expr(a0.slice, {iv: "i"})
+    if not (isinstance(a1, ast.Name) and a1.id == upar): raise TranslateError("row parameter is not the argument of _evaluate_row")
+    # evaluate(u,v) = de_casteljau(self._evaluate_row(<x>), <y>)
+    eargs = [a.arg for a in ev.args.args]
+    if len(eargs) != 3: raise TranslateError("evaluate signature")
+    erets = [s for s in ev.body if isinstance(s, ast.Return)]
+    c = erets[0].value if len(erets) == 1 else None
+    if not (isinstance(c, ast.Call) and isinstance(c.func, ast.Name) and c.func.id == "de_casteljau" and len(c.args) == 2
+            and isinstance(c.args[0], ast.Call) and ast.unparse(c.args[0].func) == "self._evaluate_row" and len(c.args[0].args) == 1
+            and isinstance(c.args[0].args[0], ast.Name) and isinstance(c.args[1], ast.Name)):
+        raise TranslateError("evaluate is not de_casteljau(self._evaluate_row(<name>), <name>)")
+    names = {eargs[1]: "u", eargs[2]: "v"}
+    if c.args[0].args[0].id not in names or c.args[1].id not in names: raise TranslateError("evaluate uses unknown names")
+    rowpar, colpar = names[c.args[0].args[0].id], names[c.args[1].id]
+    # as_surface vertex: q = self._evaluate_row(U[<e1>]); vertices.append(de_casteljau(q, V[<e2>])); U = linspace(0,1,n1), V = linspace(0,1,n2)
+    lin = {}
+    for s in surf.body:
+        if isinstance(s, ast.Assign) and isinstance(s.targets[0], ast.Name) and isinstance(s.value, ast.Call) and _is_attr_chain(s.value.func, ["np", "linspace"]):
+            a = s.value.args
+            if len(a) == 3 and [getattr(x, "value", None) for x in a[:2]] == [0, 1] and isinstance(a[2], ast.Name) and not s.value.keywords:
+                lin[s.targets[0].id] = a[2].id
+    vloop = [l for l in surf.body if isinstance(l, ast.For) and _contains_append(l.body, "vertices")][0]
+    inner = [x for x in vloop.body if isinstance(x, ast.For)][0]
+    oi, ii = vloop.target.id, inner.target.id
+    qs = [x for x in vloop.body if isinstance(x, ast.Assign) and isinstance(x.value, ast.Call) and ast.unparse(x.value.func) == "self._evaluate_row"]
+    if len(qs) != 1 or not isinstance(qs[0].value.args[0], ast.Subscript): raise TranslateError("as_surface: q = self._evaluate_row(U[..]) not found")
+    qname = qs[0].targets[0].id
+    uarr = qs[0].value.args[0]
+    app = [_append_call(x, "vertices") for x in inner.body if _append_call(x, "vertices") is not None][0]
+    if not (isinstance(app, ast.Call) and isinstance(app.func, ast.Name) and app.func.id == "de_casteljau" and len(app.args) == 2
+            and isinstance(app.args[0], ast.Name) and app.args[0].id == qname and isinstance(app.args[1], ast.Subscript)):
+        raise TranslateError("as_surface vertex is not de_casteljau(q, V[..])")
+    varr = app.args[1]
+    un, vn = uarr.value.id, varr.value.id
+    if lin.get(un) != "n1" or lin.get(vn) != "n2":
+        raise TranslateError(f"as_surface parameter arrays: row parameter from linspace(0,1,{lin.get(un)}), column parameter from linspace(0,1,{lin.get(vn)})")
+    su = int_expr(uarr.slice, {oi: "i", ii: "j"}); sv = int_expr(varr.slice, {oi: "i", ii: "j"})
+    # uv attribute: uvs[k] = Vec(U[..], V[..])
+    uvsrc = [ast.unparse(x.value) for x in inner.body if isinstance(x, ast.Assign) and ast.unparse(x.targets[0]) == "uvs[k]"]
+    if uvsrc != [f"Vec({ast.unparse(uarr)}, {ast.unparse(varr)})"]:
+        raise TranslateError(f"uv attribute is not Vec of the two parameters used for the vertex: {uvsrc}")
+    out = NS
+    out += "/-- `_evaluate_row(u)`: `[de_casteljau(self.pts[rowIndex i], u) for i in range(rowRange)]`\n"
+    out += "(`nrows = len(self.pts)`, `ncols = len(self.pts[0])`) -/\n"
+    out += f"def rowRange (nrows ncols : Nat) : Nat := {rng_}\n"
+    out += f"def rowIndex (i : Nat) : Nat := {ridx}\n"
+    out += "def evaluateRow (dc : List Rat → Rat → Rat) (pts : Nat → List Rat) (nrows ncols : Nat) (u : Rat) : List Rat :=\n"
+    out += "  (List.range (rowRange nrows ncols)).map (fun i => dc (pts (rowIndex i)) u)\n"
+    out += "/-- `evaluate(u,v)`: which parameter goes to the rows and which to the resulting column -/\n"
+    out += f"def evaluate (dc : List Rat → Rat → Rat) (row : Rat → List Rat) (u v : Rat) : Rat := dc (row {rowpar}) {colpar}\n"
+    out += "/-- `as_surface`: vertex `(i,j)` is `de_casteljau(_evaluate_row(U[surfVertU i j]), V[surfVertV i j])` -/\n"
+    out += f"def surfVertU (i j : Nat) : Nat := {su}\n"
+    out += f"def surfVertV (i j : Nat) : Nat := {sv}\n" + END
+    _, sha = T.write_generated("C19Patch", out)
+    return {"sha": sha, "rowRange": rng_, "rowIndex": ridx, "evaluate": f"dc (row {rowpar}) {colpar}", "surfVert": [su, sv]}
+
+
 def translate():
     return [
         T.site("bezier.py: BezierPatch.as_surface (loop bounds, quad index expressions)", site_as_surface),
         T.site("bezier.py: BezierCurve.as_polyline (edge loop bound, edge pair)", site_as_polyline),
         T.site("sampling.py: sample_ball (operation order as an expression tree)", site_sample_ball),
         T.site("sampling.py: sample_AABB + aabb.py: span (points expression of both modes)", site_sample_aabb),
+        T.site("sampling.py: sample_surface (probabilities, face/normal index, barycentric map, wrapping options)", site_sample_surface),
+        T.site("sampling.py: sample_polyline (guard, probabilities, edge index, interpolation, wrapping)", site_sample_polyline),
+        T.site("sampling.py: sample_sphere (operation order, wrapping)", site_sample_sphere),
+        T.site("bezier.py: de_casteljau (range guard, loop bounds, update expression, result index)", site_de_casteljau),
+        T.site("bezier.py: BezierPatch._evaluate_row / evaluate / as_surface vertex (row vs column ranges and parameters)", site_patch_evaluate),
     ]
